@@ -1,0 +1,125 @@
+//go:build verif
+
+// Contracts for the deductive checker in /verif (read only with -tags verif).
+
+package zuc
+
+// ---- the seekable stream cipher (C11) over an ABSTRACT keystream. Ghost view of a generator state:
+// zkid = identity of (key, iv), zpos = number of 32-bit words produced so far. ZKS(kid, i) is byte i
+// of the standard keystream for that key and iv. The word generator (assembly or generic) is assumed
+// to produce exactly the next words; the LFSR/F function itself is not under contract.
+//@ ghost zkid : Int of zucState32
+//@ ghost zpos : Int of zucState32
+
+//@ func genKeyStreamRev32 trusted
+//@   requires pState != nil && len(keyStream) % 4 == 0
+//@   ensures ghost(zpos, pState) == old(ghost(zpos, pState)) + len(keyStream) / 4 && ghost(zkid, pState) == old(ghost(zkid, pState))
+//@   ensures forall j :: 0 <= j && j < len(keyStream) ==> keyStream[j] == ZKS(old(ghost(zkid, pState)), 4 * old(ghost(zpos, pState)) + j)
+//@   modifies keyStream[0..len(keyStream)], *pState, ghost(zpos, pState)
+
+//@ func genKeyStream trusted
+//@   requires pState != nil
+//@   ensures ghost(zpos, pState) == old(ghost(zpos, pState)) + len(keyStream) && ghost(zkid, pState) == old(ghost(zkid, pState))
+//@   modifies keyStream[0..len(keyStream)], *pState, ghost(zpos, pState)
+
+// representation invariant of the cipher object: the generator is at the round boundary
+// used + xLen; x holds the unused bytes of the last round; checkpoint k is the generator state at
+// byte position k * bucketSize, and the checkpoints cover every bucket boundary up to (at least) the
+// generator's position
+//@ pred eshape(c) := c != nil && 0 <= c.xLen && c.xLen < 128 && c.used < 4611686018427387904 && 0 <= c.bucketSize && c.bucketSize < 1099511627776 && c.bucketSize % 128 == 0 && len(c.states) >= 1
+//@ pred epos(c) := 4 * ghost(zpos, c.zucState32) == c.used + c.xLen && (c.used + c.xLen) % 128 == 0 && 0 <= ghost(zpos, c.zucState32)
+//@ pred ebuf(c) := forall j :: 0 <= j && j < c.xLen ==> c.x[j] == ZKS(ghost(zkid, c.zucState32), c.used + j)
+//@ pred echk(c) := forall k :: 0 <= k && k < len(c.states) ==> c.states[k] != nil && !sameobj(c.states[k], c.zucState32) && ghost(zkid, c.states[k]) == ghost(zkid, c.zucState32) && 4 * ghost(zpos, c.states[k]) == k * c.bucketSize
+//@ pred ecov(c) := (len(c.states) * c.bucketSize) % 128 == 0 && len(c.states) * c.bucketSize < 4611687117939015680 && (c.bucketSize > 0 ==> c.used + c.xLen < len(c.states) * c.bucketSize)
+//@ pred einv(c) := eshape(c) && epos(c) && ebuf(c) && echk(c) && ecov(c)
+
+//@ func (*eea).appendState property C11
+//@   requires c != nil
+//@   ensures len(c.states) == old(len(c.states)) + 1 && c.states[len(c.states) - 1] != nil
+//@   ensures ghost(zkid, c.states[len(c.states) - 1]) == ghost(zkid, c.zucState32) && ghost(zpos, c.states[len(c.states) - 1]) == ghost(zpos, c.zucState32)
+//@   ensures forall k :: 0 <= k && k < old(len(c.states)) ==> c.states[k] == old(c.states[k])
+//@   ensures fresh(c.states[len(c.states) - 1])
+//@   ensures (sameobj(c.states, old(c.states)) && offof(c.states) == old(offof(c.states)) && cap(c.states) == old(cap(c.states))) || fresh(c.states)
+//@   modifies c.states, c.states[len(c.states)..cap(c.states)]
+
+// back to the checkpoint of the bucket that contains offset
+//@ func (*eea).reset property C11
+//@   requires einv(c) && offset < c.used
+//@   let KID := ghost(zkid, c.zucState32)
+//@   ensures eshape(c) && ghost(zkid, c.zucState32) == KID && c.xLen == 0
+//@   ensures c.used <= offset
+//@   ensures epos(c)
+//@   ensures ebuf(c)
+//@   ensures echk(c)
+//@   ensures ecov(c)
+//@   ensures len(c.states) == old(len(c.states)) && c.bucketSize == old(c.bucketSize)
+//@   modifies c.stateIndex, c.zucState32, c.xLen, c.used, ghost(zkid, c.zucState32), ghost(zpos, c.zucState32)
+
+// position the stream at an absolute byte offset (backwards through the nearest checkpoint)
+//@ func (*eea).seek property C11
+//@   requires einv(c) && offset < 4611686018427387904 - 256
+//@   let KID := ghost(zkid, c.zucState32)
+//@   ensures eshape(c) && ghost(zkid, c.zucState32) == KID && c.used == offset
+//@   ensures epos(c)
+//@   ensures ebuf(c)
+//@   ensures echk(c)
+//@   ensures ecov(c)
+//@   ensures c.bucketSize == old(c.bucketSize)
+//@   loop 1 invariant eshape(c) && ghost(zkid, c.zucState32) == KID && c.xLen == 0 && c.used + gap == offset && c.bucketSize == old(c.bucketSize)
+//@   loop 1 invariant epos(c)
+//@   loop 1 invariant echk(c)
+//@   loop 1 invariant ecov(c) && nextBucketOffset == c.bucketSize * len(c.states)
+//@   loop 1 decreases gap
+//@   assert before call appendState#1: c.used == nextBucketOffset
+//@   assert before call appendState#2: 4 * ghost(zpos, c.zucState32) == nextBucketOffset
+//@   modifies c.stateIndex, c.zucState32, c.xLen, c.used, c.x, c.states, heap H_ptr, ghost(zkid, c.zucState32), ghost(zpos, c.zucState32)
+
+// the stream operation: dst[j] = src[j] xor keystream byte (used + j), in place or into a separate
+// buffer; the position advances by len(src); the invariant is kept for every length and every state
+// of the remaining-bytes buffer
+//@ func (*eea).XORKeyStream property C11
+//@   requires einv(c) && c.used + len(src) < 4611686018427387904 - 256 && !sameobj(dst, c.x) && !sameobj(src, c.x)
+//@   maypanic
+//@   let KID := ghost(zkid, c.zucState32)
+//@   let U0 := c.used
+//@   let SA := arr(src)
+//@   let SO := offof(src)
+//@   let L := len(src)
+//@   let DO := offof(dst)
+//@   let D0 := dst
+//@   ensures eshape(c) && ghost(zkid, c.zucState32) == KID && c.used == U0 + L && c.bucketSize == old(c.bucketSize)
+//@   ensures epos(c)
+//@   ensures ebuf(c)
+//@   ensures echk(c)
+//@   ensures ecov(c)
+//@   ensures forall j :: 0 <= j && j < L ==> dst[j] == bxor8(SA[SO + j], ZKS(KID, U0 + j))
+//@   loop 1 let P1 := offof(src) - SO
+//@   loop 1 invariant eshape(c) && ghost(zkid, c.zucState32) == KID && c.xLen == 0 && c.bucketSize == old(c.bucketSize)
+//@   loop 1 invariant sameobj(src, old(src)) && SO <= offof(src) && offof(src) + len(src) == SO + L && sameobj(dst, D0) && offof(dst) - DO == offof(src) - SO && len(dst) == len(D0) - (offof(dst) - DO) && len(D0) >= L
+//@   loop 1 invariant c.used == U0 + (offof(src) - SO) && (offof(src) - SO - P1) % 128 == 0
+//@   loop 1 invariant epos(c)
+//@   loop 1 invariant echk(c)
+//@   loop 1 invariant ecov(c) && nextBucketOffset == c.bucketSize * len(c.states)
+//@   loop 1 invariant forall j :: 0 <= j && j < offof(src) - SO ==> D0[j] == bxor8(SA[SO + j], ZKS(KID, U0 + j))
+//@   loop 1 invariant forall j :: 0 <= j && j < len(src) ==> src[j] == SA[offof(src) + j]
+//@   loop 1 invariant onlychanged(D0[:L])
+//@   loop 1 decreases len(src)
+//@   assert before call appendState#1: c.used == nextBucketOffset
+//@   assert before call appendState#2: 4 * ghost(zpos, c.zucState32) == nextBucketOffset
+//@   modifies dst[0..len(src)], c.x, c.xLen, c.used, c.zucState32, c.states, heap H_ptr, ghost(zkid, c.zucState32), ghost(zpos, c.zucState32)
+
+// positioned operation: any absolute offset, forwards or backwards, any history of earlier calls
+//@ func (*eea).XORKeyStreamAt property C11
+//@   requires einv(c) && offset + len(src) < 4611686018427387904 - 512 && !sameobj(dst, c.x) && !sameobj(src, c.x)
+//@   maypanic
+//@   let KID := ghost(zkid, c.zucState32)
+//@   let SA := arr(src)
+//@   let SO := offof(src)
+//@   let L := len(src)
+//@   ensures eshape(c) && ghost(zkid, c.zucState32) == KID && c.used == offset + L && c.bucketSize == old(c.bucketSize)
+//@   ensures epos(c)
+//@   ensures ebuf(c)
+//@   ensures echk(c)
+//@   ensures ecov(c)
+//@   ensures forall j :: 0 <= j && j < L ==> dst[j] == bxor8(SA[SO + j], ZKS(KID, offset + j))
+//@   modifies dst[0..len(src)], c.stateIndex, c.x, c.xLen, c.used, c.zucState32, c.states, heap H_ptr, ghost(zkid, c.zucState32), ghost(zpos, c.zucState32)
